@@ -342,10 +342,13 @@ def one_case(ctx, k, kind):
         fallback = rec.name == "ElementTriN3"
         comps, mags, DF, _ = c03.eval_side(mesh, kind, rec.make, x, Fs, 0, W, DFfun, fallback)
         n = c03.outward_normal(mesh, kind, Fs, DF)
+        # natural scale: the magnitude sum_i |phi_i| of the local basis at the same points (the vector itself has
+        # no contribution left on the facet when the property holds)
+        _, mags1, _, _ = c03.eval_side(mesh, kind, rec.make, np.ones(N), Fs, 0, W, DFfun, fallback)
         worst = 0.0
         for ci, cr in enumerate(comp_recs):
             tr = trace_of(cr, comps[ci], n)
-            worst = max(worst, float((np.abs(tr) / (mags[ci] + 1e-300)).max()))
+            worst = max(worst, float((np.abs(tr) / (mags1[ci] * float(np.abs(x).max()) + 1e-300)).max()))
         ctx.check("trace-independent-of-complement", worst <= (1e-6 if any(r.family == "global" for r in comp_recs) else 1e-9),
                   mech=f"trace-depends-on-outside:{base}", worst=worst, **tag)
         ctx.nontrivial(rec.name, "trace", "independence")
